@@ -144,6 +144,13 @@ impl Gen {
             }
         }
     }
+    /// constructor expression drawn from the injection stream
+    fn ictor(&mut self, t: Ty) -> String {
+        let mut g = Gen::scratch(self.irng.next());
+        g.ap = self.ap.clone();
+        g.ax = self.ax.clone();
+        g.ctor(t)
+    }
     fn fresh(&mut self, p: &str) -> String {
         self.counter += 1;
         format!("{p}{}", self.counter)
@@ -217,10 +224,7 @@ impl Gen {
         let live: Vec<usize> = self.consumable();
         let kind = self.irng.below(15);
         let t = *self.irng.pick(&NONCOPY);
-        let c = {
-            let mut g = Gen::scratch(self.irng.next());
-            g.ctor(t)
-        };
+        let c = self.ictor(t);
         let needs_arr = t == Ty::Arr;
         let what;
         // a fresh non-copyable value (or an existing live one) is consumed twice on one path
@@ -291,7 +295,7 @@ impl Gen {
                 9 => {
                     // one source remapped to two destinations at a merge
                     let (a, b) = (self.fresh("za"), self.fresh("zb"));
-                    let c2 = { let mut g = Gen::scratch(self.irng.next()); g.ctor(if needs_arr { Ty::D } else { t }) };
+                    let c2 = self.ictor(if needs_arr { Ty::D } else { t });
                     let t2 = if needs_arr { Ty::D } else { t };
                     if needs_arr {
                         self.line(depth, &format!("let {z}d = D {{ a: 1, b: 1 }};"));
@@ -330,7 +334,7 @@ impl Gen {
                     // user enum: catch-all re-binding, nested once more
                     let (q, o1, o2, f) = (self.fresh("zr"), self.fresh("zother"), self.fresh("zother"), self.fresh("zf"));
                     let (en, ety, inner) = if self.irng.bool() { ("E", Ty::E, Ty::D) } else { ("EN", Ty::EN, Ty::N) };
-                    let c2 = { let mut g = Gen::scratch(self.irng.next()); g.ctor(ety) };
+                    let c2 = self.ictor(ety);
                     let e = self.fresh("ze");
                     self.line(depth, &format!("acc = mix(acc, {});", eat(t, &z)));
                     self.line(depth, &format!("let {e} = {c2};"));
@@ -375,7 +379,7 @@ impl Gen {
                 what = "PanicDestruct-only Y consumed in one branch only, the other returns";
             }
             9 => {
-                let c = { let mut g = Gen::scratch(self.irng.next()); g.ap = self.ap.clone(); g.ctor(Ty::AP) };
+                let c = self.ictor(Ty::AP);
                 self.line(depth, &format!("let {z} = {c};"));
                 self.line(depth, &format!("let _ = @{z};"));
                 what = "PanicDestruct-only aggregate never consumed on a path that returns";
